@@ -12,7 +12,11 @@
 #include "sync_common.h"
 myth_felock_t FE;
 volatile int slot; volatile int holder = -1; int consumed[NP*ITEMS+1+4]; int n_consumed;
-void verif_init(void){ verif_model_init(); myth_felock_init_body(&FE, 0); }
+void verif_init(void){ verif_model_init(); myth_felock_init_body(&FE, 0);
+#ifdef SLEEPER
+  FE.status = 1; verif_ctx_saved[1] = 1; myth_sleep_queue_enq_th(FE.cond[1].sleep_q, &TD1);
+#endif
+}
 #define PROD(me, item) do { \
     myth_felock_wait_and_lock_body(&FE, 0); \
     verif_check(myth_felock_status_body(&FE) == 0, "C09 wait_and_lock(0) returns only when the status is 0"); \
@@ -40,7 +44,14 @@ static inline void producer(int me, int base){
 }
 static inline void consumer1(int me){ CONS(me); }
 static inline void consumer2(int me){ CONS(me); CONS(me); }
-#ifdef PLAINLOCK   /* plain lock/unlock mixed with the status operations: T0 uses lock/unlock only, T1 the status operations */
+#ifdef SLEEPER     /* status is already t = 1 and a thread still sleeps waiting for 1 (several waiters were asleep, only one was woken):
+                      mark_and_signal(1) by the current holder ("read and leave full") must let that waiter proceed */
+void t0(void){ myth_felock_lock_body(&FE); verif_check(holder == -1, "C09 lock held exclusively"); holder = 0; holder = -1; myth_felock_mark_and_signal_body(&FE, 1); }
+void t1(void){ verif_park(&verif_wake[1]); verif_after_resume(1);
+  myth_mutex_lock_body(FE.mutex);            /* what cond_wait does after being woken */
+  verif_check(myth_felock_status_body(&FE) == 1, "C09 the waiter for status 1 proceeds with status 1"); verif_check(holder == -1, "C09 lock held exclusively");
+  n_consumed = 1; myth_felock_unlock_body(&FE); }
+#elif defined(PLAINLOCK)   /* plain lock/unlock mixed with the status operations: T0 uses lock/unlock only, T1 the status operations */
 void t0(void){ myth_felock_lock_body(&FE); verif_check(holder == -1, "C09 lock held exclusively"); holder = 0; int s = myth_felock_status_body(&FE); verif_check(s == 0 || s == 1, "C09 status is 0 or 1"); holder = -1; myth_felock_unlock_body(&FE); }
 void t1(void){ PROD(1, 1); }
 #elif NP == 1 && NC == 1
@@ -61,7 +72,9 @@ void t2(void){ consumer1(2); }
 #endif
 void verif_final(void){
   if (verif_all_done()) {
-#ifdef PLAINLOCK
+#ifdef SLEEPER
+    verif_check(n_consumed == 1 && FE.status == 1, "C09 the sleeping waiter was let through");
+#elif defined(PLAINLOCK)
     verif_check(FE.status == 1 && slot == 1, "C09 the status operation published its value");
 #else
     verif_check(n_consumed == NP*ITEMS, "C09 every produced item is consumed");
